@@ -79,11 +79,20 @@ def execute(program, ctx):
         dims.append(("omega", "p_omega", rp["selected_sample_size_omega"], rp["sample_size_omega"]))
 
     # independent residuals -------------------------------------------------
+    import equinox as eqx
+    het = bool(program.get("hetero"))
+
+    def with_het(params, fn, *point):
+        """the user's heterogeneity applied by hand (not through DynamicLoss.evaluate)"""
+        if not het:
+            return params
+        return eqx.tree_at(lambda p: p.eq_params, params, dict(params.eq_params, a=fn(*point, P.u, params)))
+
     def residuals(params, ev):
         if eq in ("ode", "odevec", "sysode"):
             ts_ = jnp.asarray(ev["candidates"])
             if eq in ("ode", "odevec"):
-                f = jax.vmap(lambda t: P.loss.dynamic_loss.equation(t, P.u, params))
+                f = jax.vmap(lambda t: P.loss.dynamic_loss.equation(t, P.u, with_het(params, ts._het_ode, t)))
                 r = np.asarray(f(ts_))
                 return (r.reshape(r.shape[0], -1) ** 2).sum(axis=1)
             tot = 0.0
@@ -94,12 +103,12 @@ def execute(program, ctx):
             return tot
         if eq == "statio2":
             xs = jnp.asarray(ev["candidates"])
-            f = jax.vmap(lambda x: P.loss.dynamic_loss.equation(x, P.u, params))
+            f = jax.vmap(lambda x: P.loss.dynamic_loss.equation(x, P.u, with_het(params, ts._het_statio, x)))
             r = np.asarray(f(xs))
             return (r.reshape(r.shape[0], -1) ** 2).sum(axis=1)
         tt = jnp.asarray(ev["candidates_times"])
         xx = jnp.asarray(ev["candidates_omega"])
-        f = jax.vmap(jax.vmap(lambda t, x: P.loss.dynamic_loss.equation(t[None], x, P.u, params), (None, 0)), (0, None))
+        f = jax.vmap(jax.vmap(lambda t, x: P.loss.dynamic_loss.equation(t[None], x, P.u, with_het(params, ts._het_nonstatio, t[None], x)), (None, 0)), (0, None))
         r = np.asarray(f(tt, xx))
         return (r.reshape(tt.shape[0], xx.shape[0]) ** 2)
 
@@ -227,6 +236,8 @@ def execute(program, ctx):
             fail("drivers-disagree", "final-generator", {})
         ctx.count("probe.M1_equals_M2")
     ctx.count("probe.steps", steps_done)
+    if het and steps_done:
+        ctx.count("probe.steps_with_heterogeneous_parameter")
     if resh_between:
         ctx.count("probe.reshuffle_between_steps")
     two = "n_start" in rar and "nt_start" in rar
